@@ -237,6 +237,7 @@ pub fn sqlite_types() -> Vec<Ty> {
         Ty::Binary(16),
         Ty::VarBinary(StringLen::None),
         Ty::VarBinary(StringLen::N(32)),
+        Ty::VarBinary(StringLen::Max),
         Ty::Bool,
         Ty::Money(None),
         Ty::Money(Some((12, 4))),
